@@ -21,7 +21,9 @@ MANIFEST = dict(
               'top-level dispatch of FGD.parse_file; codec tables, bit packings, whole binary records, blocks, file header and block '
               'positions; the block builder of serialise(): every entity in exactly one block; lazy database = eager database for all '
               'query orders including what stored base names are replaced by; a LIST of databases: first-hit look-up = first-wins merge '
-              'for all histories; one composed statement c16_property over the generated objects) + '
+              'for all histories; the helper argument list as a configuration read off EntityDef.parse and proved equal to the model; '
+              'what EntityDef.__deepcopy__ shares with the cached definition, as a copy plan read off the source with a theorem over all '
+              'shapes, copy expressions and heaps; one composed statement c16_property over the generated objects) + '
               'fail-closed ast translator that normalises before matching (constants, escape table, decisive writer branches read off '
               'all paths, I/O skeletons of the (un)serialisers, shape of get_ent/_parse_block/get_fgd, shape of the engine_def loop and '
               'of the engine_dbase merge, symbolic execution of the type-text part of the line parsers, VALUE_TYPE_LOOKUP, the dispatch '
@@ -55,7 +57,14 @@ MANIFEST = dict(
          'loaded database; base look-ups terminate; the ent_map-look-up variant is refuted. Several databases (add_engine_database): '
          'for every list of files and every history of EntityDef.engine_def() look-ups the answers equal FGD.engine_dbase() when the '
          'merge keeps the first definition of a class, both are the content of the first file that defines it, and the overwriting '
-         'merge (dict.update) is refuted on every class whose first and last definitions differ. c16_property states text, type text, '
+         'merge (dict.update) is refuted on every class whose first and last definitions differ. Helper arguments: every argument '
+         'list whose arguments are stripped and comma-free - BLANK arguments at any position included - is read back from what '
+         '", ".join wrote, except the sole blank argument (helper() is no argument, stated exactly); every configuration (separator, '
+         'strip, filter, sole-blank special case) of today\'s shape computes the model on all inputs; a filter in the comprehension is '
+         'refuted. State between calls: for every shape of an attribute, every copy expression that the decision procedure `isolates` '
+         'accepts and every value of that shape, no object of the copy is an object of the original, so no in-place change through '
+         'what engine_def()/engine_dbase() returned reaches the cached database; sharing the IODef objects and sharing the resources '
+         'list are refuted. c16_property states text, type text, helper arguments, copy isolation, '
          'kind keyword, block grouping and lazy loading at the generated objects under the conjunction of the named booleans, which is '
          'itself an instance obligation of every run. The objects the theorems quantify over are '
          'regenerated from the source on every run and kernel-checked as named instance obligations; all hand models are compared with the '
@@ -70,8 +79,10 @@ MANIFEST = dict(
          'are abstract in the theorems; their premises are checked on the real tables / generated helpers (data obligations). str.casefold is '
          'modelled as ASCII lower-casing (the three laws the type-text proof needs are proved for it). Block decoding '
          'in the lazy model is a parameter (a function of the block bytes), lzma is outside the model, compute_ent_strings (which strings a '
-         'block needs) and the final stable sort of the blocks by length are not modelled, deepcopy in engine_def/engine_dbase '
-         'and FGD.apply_bases after the merge are outside the model. The translator assumes that attribute loads are plain field reads and '
+         'block needs) and the final stable sort of the blocks by length are not modelled; copy.deepcopy itself (on bases and helpers), '
+         'the generic deepcopy of the FGD object in engine_dbase and FGD.apply_bases after the merge are outside the model; the shapes '
+         'of the attributes come from the annotations (a value may be immutable where the annotation allows a container; Sequence counts '
+         'as a mutable container). The translator assumes that attribute loads are plain field reads and '
          'that the str methods it inlines have no effects. Accepted normalisations of the text form: I/O types decay (VALUE_TO_IO_DECAY), empty BOOL '
          'default = "0", yes/no = 1/0, kv_order is compared as effective order, newlines in choice/flag names become spaces, '
          'custom_syntax=False drops tags/resources/extension helpers/aliasof and cannot represent ", \\ or CR in texts; a custom type name '
@@ -80,7 +91,8 @@ MANIFEST = dict(
          'worker processes with wall limits: a search stage that does not return or raises unexpectedly is reported as a violation whose '
          'replay re-runs the stage; a tie stage that times out is an internal error. Trusted: Coq kernel + '
          'vm_compute, translate/c16_fgd.py, hand models Fmt/LongString.v, Fmt/FgdBin.v, Fmt/FgdBinEnt.v, Fmt/FgdLine.v, Fmt/FgdBody.v, '
-         'Fmt/FgdHead.v, SM/LazyDb.v, SM/LazyDbMulti.v (tied by correspondence), the real Tokenizer as lexer of the line correspondences, CPython.',
+         'Fmt/FgdHead.v, SM/LazyDb.v, SM/LazyDbMulti.v (tied by correspondence), SM/FgdCopyShare.v (the heap model of copies: objects with an '
+         'address over immutable leaves; tied by the isolation searches), the real Tokenizer as lexer of the line correspondences, CPython.',
 )
 
 IMPORTS = ['Coq.NArith.NArith', 'Coq.Lists.List', 'Coq.Strings.String', 'Coq.Bool.Bool', 'Coq.Arith.Arith', 'SV.Fmt.LongString', 'SV.Fmt.FgdBin', 'SV.Fmt.FgdBinEnt', 'SV.Fmt.FgdLine', 'SV.Fmt.FgdBody', 'SV.Fmt.FgdHead', 'SV.Fmt.FgdEntity', 'SV.SM.LazyDb', 'SV.SM.LazyDbMulti',
@@ -1066,9 +1078,10 @@ def corr_head(ck: Ck) -> None:
                     except Exception:   # noqa: BLE001
                         hp[n, a] = None
     w_cases, r_cases = [], []
-    forms_checked, forms_bad = 0, []
+    forms_checked, forms_bad, sole_blank = 0, [], 0
     extras = [(T.STRING, 'halfgridsnap'), (T.STRING, 'size'), (T.STRING, 'zzz'), (T.STRING, 'aliasof'), (T.STRING, 'base'), (T.PAREN_ARGS, ''),
-              (T.PAREN_ARGS, 'a, b'), (T.PAREN_ARGS, ' x '), (T.NEWLINE, '\n'), (T.EQUALS, '='), (T.COLON, ':'), (T.PLUS, '+'), (T.BRACK_OPEN, '['),
+              (T.PAREN_ARGS, 'a, b'), (T.PAREN_ARGS, ' x '), (T.PAREN_ARGS, 'a, , b'), (T.PAREN_ARGS, ', x'), (T.PAREN_ARGS, 'x, '), (T.PAREN_ARGS, ' , '), (T.PAREN_ARGS, ','), (T.PAREN_ARGS, ' '),
+              (T.NEWLINE, '\n'), (T.EQUALS, '='), (T.COLON, ':'), (T.PLUS, '+'), (T.BRACK_OPEN, '['),
               (T.COMMA, ','), (T.STRING, 'text')]
     for i in range(ck.budget(40, 300)):
         plain = i % 3 == 2
@@ -1077,7 +1090,7 @@ def corr_head(ck: Ck) -> None:
         e.bases = rng.sample(HEAD_BASES, rng.choice([0, 0, 1, 2, 3]))
         e.is_alias = bool(e.bases) and rng.random() < 0.3
         for _ in range(rng.choice([0, 1, 2, 3, 5])):
-            hname, hargs = rng.choice(HELPER_POOL if rng.random() < 0.8 else EXT_HELPER_POOL + [('orderby', ['speed', 'Model'])])
+            hname, hargs = rng.choice(HELPER_POOL if rng.random() < 0.8 else EXT_HELPER_POOL + SOLE_BLANK_POOL + [('orderby', ['speed', 'Model']), ('appliesto', ['', 'P2'])])
             try:
                 e.helpers.append(UnknownHelper(hname[1:], list(hargs)) if hname.startswith('@') else HELPER_IMPL[HelperTypes(hname)].parse(list(hargs)))
             except (ValueError, TypeError, KeyError):
@@ -1096,7 +1109,13 @@ def corr_head(ck: Ck) -> None:
         # premises of c16_entity_header_roundtrip on this entity: [form_ok] for every helper, [bases_ok], a stripped class name
         for h in e.helpers:
             n, a = hkey(h)
-            ok_args = all(x and ',' not in x and x.strip() == x for x in a)
+            if a == ['']:
+                # the sole blank argument is outside [args_ok]: written `name()`, read as no argument (c16_helper_args_sole_blank);
+                # the correspondence below still compares writer and reader on it
+                sole_blank += 1
+                continue
+            ok_args = all(',' not in x and x.strip() == x for x in a)       # blank arguments allowed (round 5)
+            ck.hist('head_helper_blank_args', blank_positions(a))
             if isinstance(h, UnknownHelper):
                 ok_form = n not in known and n != 'aliasof'
             else:
@@ -1153,8 +1172,9 @@ def corr_head(ck: Ck) -> None:
         cl(known), coq_list('(%s, %s, %s)' % (cs(n), cl(a), 'None' if v is None else 'Some (%s, %s)' % (cs(v[0]), cl(v[1])))
                             for (n, a), v in sorted(hp.items(), key=lambda kv: (kv[0][0], kv[0][1])))), 1)
     ck.obligation('data:header_premises_hold_for_generated_entities', not forms_bad and 'base' in known and 'aliasof' not in known,
-                  f'{forms_checked} helpers of the generated entities: HELPER_IMPL[type].parse(export()) gives the same helper, arguments and '
-                  f'base names are non-empty, stripped and without commas, no helper is called base/aliasof/autovis; HelperTypes knows '
+                  f'{forms_checked} helpers of the generated entities: HELPER_IMPL[type].parse(export()) gives the same helper, arguments are '
+                  f'stripped and without commas (blank ones allowed; {sole_blank} helpers with the sole blank argument are outside the premise), '
+                  f'base names also non-empty, no helper is called base/aliasof/autovis; HelperTypes knows '
                   f'"base" and not "aliasof" (premises of c16_entity_header_roundtrip); failing: {forms_bad[:5]}')
     vals = ck.coq_eval(IMPORTS, ['map hw ' + coq_list(w_cases), 'map hr ' + coq_list(r_cases)], name='head', preamble=pre, timeout=900)
     if vals is None:
@@ -1174,6 +1194,58 @@ def corr_head(ck: Ck) -> None:
         ck.tie_broken.append('correspondence entity header (Fmt/FgdHead.v vs EntityDef.export/parse)')
         which, j = ('writer', wbad[0]) if wbad else ('reader', rbad[0])
         ck.extra['text_header_disagreement'] = {'side': which, 'code': (wc if wbad else rc)[j], 'case': (w_cases if wbad else r_cases)[j][:1500]}
+    corr_helper_args_program(ck)
+
+
+def corr_helper_args_program(ck: Ck) -> None:
+    """The GENERATED configuration of the PAREN_ARGS branch against the implementation, exhaustively on a small scope: every text over
+    {',', ' ', 'a', 'b'} of length 0-5 (1365 texts) as the PAREN_ARGS token of an unknown helper, through the real EntityDef.parse;
+    the arguments UnknownHelper received == paren_args_with gen_args_cfg (so this correspondence follows the code that is there:
+    under a fault it still agrees and the named obligations on gen_args_cfg say what is wrong)."""
+    import itertools
+    import warnings
+    import srctools.fgd as F
+    from srctools.fgd import EntityDef, EntityTypes
+    from srctools.tokenizer import IterTokenizer, Token as T
+    cs = lambda x: '[' + ';'.join(str(ord(c)) for c in x) + ']'   # noqa: E731
+    cases = []
+    for n in range(0, 6):
+        for tup in itertools.product(', ab', repeat=n):
+            text = ''.join(tup)
+            stream = [(T.STRING, 'zz_helper'), (T.PAREN_ARGS, text), (T.NEWLINE, '\n'), (T.EQUALS, '='), (T.STRING, 'e'), (T.NEWLINE, '\n'),
+                      (T.BRACK_OPEN, '['), (T.NEWLINE, '\n'), (T.BRACK_CLOSE, ']')]
+            fgd = F.FGD()
+            try:
+                with warnings.catch_warnings():
+                    warnings.simplefilter('ignore')
+                    EntityDef.parse(fgd, IterTokenizer(iter(stream), 'c16', F.FGDParseError), EntityTypes.POINT, eval_bases=False)
+                [ent] = fgd.entities.values()
+                [h] = ent.helpers
+                got = 'Some ' + coq_list(cs(a) for a in h.export())
+            except Exception:   # noqa: BLE001
+                got = 'None'
+            cases.append('(%s, %s)' % (cs(text), got))
+            ck.count('corr_helper_args_program')
+            blank_piece = ',' in text and any(p.strip() == '' for p in text.split(','))
+            ck.hist('helper_args_program_text', 'blank piece' if blank_piece else 'plain')
+            if blank_piece:
+                ck.seen(('haprog', text))
+    pre = HEAD_PRE.split('Definition hobj')[0] + '''Definition ha (c : list N * option (list (list N))) : N :=
+  match snd c with Some l => if leqb str_eqb (paren_args_with gen_args_cfg (fst c)) l then 0 else 1 | None => 2 end.
+'''
+    vals = ck.coq_eval(IMPORTS, ['map ha ' + coq_list(cases)], name='helper_args_program', preamble=pre, timeout=900)
+    if vals is None:
+        ck.obligation('correspondence:text_helper_args_program', False, 'model could not be evaluated')
+        ck.tie_broken.append('correspondence helper argument program: model evaluation failed')
+        return
+    codes = parse_coq_N_list(vals[0])
+    bad = [i for i, c in enumerate(codes) if c != 0]
+    ck.obligation('correspondence:text_helper_args_program', not bad and len(codes) == len(cases),
+                  f'EntityDef.parse PAREN_ARGS branch: {len(codes)} texts (all texts over comma, blank, a, b of length 0-5), {len(bad)} disagreements '
+                  f'(arguments UnknownHelper received == paren_args_with gen_args_cfg, the configuration read off the source)')
+    if bad:
+        ck.tie_broken.append('correspondence helper argument program (gen_args_cfg vs EntityDef.parse)')
+        ck.extra['helper_args_program_disagreement'] = cases[bad[0]]
 
 
 # ----------------------------------------------------------------------------------------------- binary records
@@ -2412,7 +2484,14 @@ HELPER_POOL = [('halfgridsnap', []), ('size', ['-8 -8 -8', '8 8 8']), ('size', [
                ('sphere', ['radius']), ('sphere', ['radius', '255 0 0']), ('line', ['255 255 255', 'targetname', 'target']),
                ('origin', ['originkey']), ('iconsprite', ['editor/foo.vmt']), ('studio', ['models/editor/foo.mdl']), ('studio', []),
                ('studioprop', []), ('wirebox', ['mins', 'maxs']), ('sidelist', ['sides']), ('lightcone', []), ('decal', []),
-               ('@custom', ['a', 'b c']), ('@other', [])]
+               ('@custom', ['a', 'b c']), ('@other', []),
+               # round 5: BLANK arguments at every position (the writer leaves an empty slot, the reader must keep it)
+               ('frustum', ['lightfov', '', '', 'lightcolor', '-1']), ('@worldtext_ex', ['message', '', 'textsize']), ('@lead', ['', 'x']),
+               ('@trail', ['x', '']), ('@two', ['', '']), ('@many', ['', 'a', '', '', 'b', '']), ('line', ['255 255 255', '', 'target']),
+               ('wirebox', ['', 'maxs']), ('wirebox', ['mins', '']), ('sphere', ['', '255 0 0']), ('lightcone', ['', 'key']),
+               ('cylinder', ['255 255 255', 'a', '', 'b'])]
+# the one list the format does not carry: a sole blank argument is written `name()` and read as no argument (c16_helper_args_sole_blank)
+SOLE_BLANK_POOL = [('@sole', [''])]
 EXT_HELPER_POOL = [('appliesto', ['TF2', 'P2']), ('appliesto', ['!CSGO'])]
 KV_NAMES = ['targetname', 'speed', 'model', 'skin', 'StartDisabled', 'message', 'rendercolor', 'angles', 'spawnflags', 'origin',
             'health', 'damage_type', 'Filter01', 'soundscape', '_light', 'wait']
@@ -2549,6 +2628,8 @@ def fgd_cause(fgd: Any, opts: dict) -> str:
         return 'special-character-in-default-or-choice-value'
     if has_custom_types(fgd):
         return 'custom-value-type'
+    if any('' in h.export() for e in fgd.entities.values() for h in e.helpers):
+        return 'blank-helper-argument'
     if any(e.is_alias for e in fgd.entities.values()) and custom:
         return 'alias-entity'
     return 'other'
@@ -3026,7 +3107,9 @@ def check_added_database(ck: Optional[Ck], names: list[str], seed: int, n_bundle
 
 
 # =============================================================================================== answers are the caller's own
-ISOLATION_MUTATIONS = ['add-keyvalue', 'change-default', 'change-io-desc', 'drop-bases', 'mutate-base', 'drop-inputs', 'rename']
+ISOLATION_MUTATIONS = ['add-keyvalue', 'change-default', 'change-io-desc', 'drop-bases', 'mutate-base', 'drop-inputs', 'rename',
+                       # round 5: in-place changes of the containers one level further down (what a copy may still share)
+                       'append-resource', 'change-choices', 'reorder-keyvalues']
 
 
 def mutate_answer(ent: Any, how: str) -> bool:
@@ -3067,6 +3150,27 @@ def mutate_answer(ent: Any, how: str) -> bool:
         ent.inputs.clear()
         ent.outputs.clear()
         return True
+    if how == 'append-resource':
+        from srctools.const import FileType
+        from srctools.fgd import Resource
+        if not isinstance(ent.resources, list):
+            return False            # `()` = no resources: nothing a caller can change in place
+        ent.resources.append(Resource('models/c16_added.mdl', FileType.MODEL))
+        return True
+    if how == 'change-choices':
+        for tm in ent.keyvalues.values():
+            for kv in tm.values():
+                if kv.val_list:
+                    kv.val_list.reverse()
+                    kv.val_list.pop()
+                    return True
+        return False
+    if how == 'reorder-keyvalues':
+        if len(ent.kv_order) < 2:
+            return False
+        ent.kv_order.reverse()
+        ent.kv_order.pop()
+        return True
     if how == 'rename':
         ent.classname = 'c16_renamed'
         ent.desc = 'changed'
@@ -3079,6 +3183,8 @@ def deep_canon(e: Any) -> dict:
     from srctools.fgd import EntityDef
     c = multi_canon(e)
     c['base_defs'] = [multi_canon(b) for b in e.bases if isinstance(b, EntityDef)]
+    c['kv_order'] = list(e.kv_order)
+    c['value_lists'] = sorted((name, repr(kv.val_list)) for name, tm in e.keyvalues.items() for kv in tm.values() if kv.val_list)
     return c
 
 
@@ -3113,13 +3219,95 @@ def check_isolation(cases: list[tuple[str, str]], via: str) -> list[tuple[str, s
     return out
 
 
+def copy_canon(e: Any) -> dict:
+    """Everything of a definition a caller can change in place: canon_ent plus kv_order, value lists, helpers, base definitions."""
+    from srctools.fgd import EntityDef
+    c = canon_ent(e)
+    c['kv_order'] = list(e.kv_order)
+    c['value_lists'] = sorted((name, repr(sorted(tags)), repr(kv.val_list)) for name, tm in e.keyvalues.items() for tags, kv in tm.items())
+    c['helpers_repr'] = [repr(h) for h in e.helpers]
+    c['base_defs'] = [canon_ent(b) for b in e.bases if isinstance(b, EntityDef)]
+    return c
+
+
+def check_copy_isolation(key: str) -> list[tuple[str, str, str]]:
+    """deepcopy() of every entity of the generated FGD `key` (what engine_def / engine_dbase do with the cached definitions), every
+    applicable in-place change of the copy: the original must stay as it was.  Returns [(class, change, what differs)]."""
+    import copy
+    fgd = gen_fgd(random.Random(key), False)
+    out = []
+    for cn, e in fgd.entities.items():
+        before = copy_canon(e)
+        for how in ISOLATION_MUTATIONS + ['change-helper']:
+            d = copy.deepcopy(e)
+            if how == 'change-helper':
+                if not d.helpers:
+                    continue
+                h = d.helpers[0]
+                for attr in getattr(type(h), '__attrs_attrs__', ()):
+                    v = getattr(h, attr.name)
+                    if isinstance(v, list):
+                        v.append('c16')
+                    elif isinstance(v, str):
+                        setattr(h, attr.name, v + 'c16')
+                d.helpers.pop(0)
+            elif not mutate_answer(d, how):
+                continue
+            after = copy_canon(e)
+            if after != before:
+                out.append((cn, how, f'copy.deepcopy(EntityDef) then {how} on the copy changed {diff_fields(before, after)} of the original'))
+                before = after
+    return out
+
+
+def check_multi_isolation(sc: dict) -> list[tuple[str, str]]:
+    """Several databases (the merge loop of FGD.engine_dbase instead of its single-database shortcut): load the whole database,
+    change every definition of the answer in place, load it again and look every class up: nothing may have moved.
+    Returns [(change, what)]."""
+    from srctools.fgd import EntityDef, FGD
+    dbs = [build_engine_db(d['blocks'], d['bases'], d['marks']) for d in sc['dbs']]
+    out = []
+    with engine_db_list(dbs):
+        whole1 = FGD.engine_dbase()
+        canon1 = {k: deep_canon(e) for k, e in whole1.entities.items() if k != '_cbaseentity_'}
+        hows = {}
+        for i, (k, e) in enumerate(sorted(whole1.entities.items())):
+            if k == '_cbaseentity_':
+                continue
+            how = ['change-default', 'rename', 'add-keyvalue', 'drop-bases'][i % 4]
+            if mutate_answer(e, how):
+                hows[k] = how
+        whole2 = FGD.engine_dbase()
+        for k, how in hows.items():
+            c2 = deep_canon(whole2.entities[k]) if k in whole2.entities else None
+            if c2 != canon1[k]:
+                out.append((how, f'FGD.engine_dbase() over {len(dbs)} databases: after the caller changed ({how}) the definition of {k!r} in the first '
+                                 f'answer, the second answer differs in {diff_fields(canon1[k], c2) if c2 else "<missing>"}'))
+                continue
+            try:
+                c3 = deep_canon(EntityDef.engine_def(k))
+            except KeyError:
+                c3 = None
+            if c3 != canon1[k]:
+                out.append((how, f'EntityDef.engine_def({k!r}) over {len(dbs)} databases differs from the first FGD.engine_dbase() answer after the caller '
+                                 f'changed ({how}) that answer'))
+    return out
+
+
 def search_isolation(ck: Ck, names: list[str]) -> None:
     """State carried between calls: what engine_def() / engine_dbase() return belongs to the caller; changing it must not change what
     the next look-up or the whole database says (the lazily decoded definitions are cached inside the database objects)."""
+    from srctools import fgd as F
     rng = ck.rng
+    # classes on which the in-place changes of round 5 are applicable: a resources LIST, a keyvalue with a value list
+    with engine_db_list(None):
+        whole = F.FGD.engine_dbase()
+        fit = {'append-resource': [n for n in names if isinstance(getattr(whole.entities.get(n.casefold()), 'resources', ()), list)],
+               'change-choices': [n for n in names if n.casefold() in whole.entities and any(
+                   kv.val_list for tm in whole.entities[n.casefold()].keyvalues.values() for kv in tm.values())]}
     for i in range(ck.budget(3, 30)):
         via = 'engine_dbase' if i % 3 == 2 else 'engine_def'
-        cases = [(rng.choice(names), how) for how in ISOLATION_MUTATIONS for _ in range(2)]
+        cases = [(rng.choice(fit.get(how) or names), how) for how in ISOLATION_MUTATIONS for _ in range(2)]
         rng.shuffle(cases)
         try:
             found = check_isolation(cases, via)
@@ -3137,6 +3325,37 @@ def search_isolation(ck: Ck, names: list[str]) -> None:
                 alone = []
             ck.violation(f'lazy-answer-not-isolated:{via}:{how}', what,
                          {'kind': 'isolation', 'cases': [list(x) for x in (single if alone else cases)], 'via': via})
+    # several databases: FGD.engine_dbase() takes its merge loop, not the single-database shortcut
+    seen_multi: set[str] = set()
+    for i in range(ck.budget(8, 80)):
+        sc = gen_multi_scenario(rng)
+        try:
+            found3 = check_multi_isolation(sc)
+        except Exception as ex:   # noqa: BLE001
+            found3 = [('raises', f'engine_dbase over hand-built databases raises {type(ex).__name__}: {ex}')]
+        ck.count('search_multi_isolation')
+        ck.seen(('multiiso', repr(sc['dbs'])))
+        for how, what in found3:
+            if how not in seen_multi:
+                seen_multi.add(how)
+                ck.violation(f'lazy-answer-not-isolated:engine_dbase-merged:{how}', what, {'kind': 'multi_isolation', 'dbs': sc['dbs']})
+    # the mechanism itself on generated definitions (value lists, tagged variants, helpers, resources: the bundled database has no
+    # value list at all): deepcopy, change the copy in place, the original must not move
+    reported: set[str] = set()
+    for i in range(ck.budget(25, 300)):
+        key = f'{ck.seed}:copy-isolation:{i}'
+        try:
+            found2 = check_copy_isolation(key)
+        except Exception as ex:   # noqa: BLE001
+            found2 = [('?', 'raises', f'copy.deepcopy / in-place change raises {type(ex).__name__}: {ex}')]
+        ck.count('search_copy_isolation')
+        ck.seen(('copyiso', key))
+        for cn, how, what in found2:
+            ck.hist('copy_isolation_found', how)
+            if how in reported:
+                continue
+            reported.add(how)
+            ck.violation(f'lazy-answer-not-isolated:deepcopy:{how}', f'{cn}: {what}', {'kind': 'copy_isolation', 'key': key, 'class': cn, 'change': how})
 
 # =============================================================================================== main
 def timed(label: str, fn: Callable[..., Any], *args: Any) -> Any:
@@ -3190,6 +3409,23 @@ INSTANCE_OBLIGATIONS = {
     'property_hypotheses_hold_for_todays_source': 'c16_property_hypotheses',
     'text_kind_keywords_read_back_as_their_kind': 'kind_keywords_read_back',
     'text_kind_dispatch_without_casefold_is_refuted': 'unfolded_dispatch_breaks',
+    # round 5: the PAREN_ARGS branch of EntityDef.parse as a generated object (separator, strip, filter, [''] special case)
+    'text_helper_args_program_is_the_model': 'helper_args_program_ok',
+    'text_helper_args_blank_arguments_keep_their_position': 'helper_args_blank_kept',
+    'text_helper_args_empty_parentheses_are_no_argument': 'helper_args_empty_parens_no_argument',
+    'text_helper_args_joined_by_comma_blank': 'helper_args_joined_by_comma_blank',
+    'text_helper_args_filter_is_refuted': 'filter_blank_breaks',
+    # round 5: what EntityDef.__deepcopy__ shares with the cached definition (SM/FgdCopyShare.v), per attribute
+    'state_copy_of_keyvalues_shares_no_object': 'copy_field_isolates "keyvalues"%string',
+    'state_copy_of_inputs_shares_no_object': 'copy_field_isolates "inputs"%string',
+    'state_copy_of_outputs_shares_no_object': 'copy_field_isolates "outputs"%string',
+    'state_copy_of_kv_order_shares_no_object': 'copy_field_isolates "kv_order"%string',
+    'state_copy_of_bases_shares_no_object': 'copy_field_isolates "bases"%string',
+    'state_copy_of_helpers_shares_no_object': 'copy_field_isolates "helpers"%string',
+    'state_copy_of_resources_shares_no_object': 'copy_field_isolates "resources"%string',
+    'state_copy_plan_isolates_every_attribute': 'entity_copy_isolates',
+    'state_answers_of_engine_def_and_engine_dbase_are_deep_copies': 'answers_are_deep_copies',
+    'state_copy_shared_io_objects_and_shared_list_are_refuted': 'shared_io_objects_break',
     'text_kv_type_program_is_the_model': 'kv_type_prog_ok',
     'text_io_type_program_is_the_model': 'io_type_prog_ok',
     'text_kv_unknown_type_kept_verbatim': 'kv_unknown_type_kept_verbatim',
@@ -3311,12 +3547,160 @@ def theorems_all(c: Any) -> None:
         c.obligation(f'theorem:{n}', True, 'Qed; axioms: ' + ('none (closed under the global context)' if not b else ', '.join(b)))
 
 
+# =============================================================================================== search: helper argument lists (round 5)
+HELPER_ARG_ATOMS = ['', 'x', 'b c']
+KNOWN_BLANK_NAMES = ['frustum', 'line', 'cylinder', 'wirebox', 'obb', 'sphere', 'lightcone', 'lightconenew', 'appliesto', 'orderby']
+KNOWN_BLANK_ATOMS = ['', 'key', '255 0 0', '-1']
+
+
+def blank_positions(args: list[str]) -> str:
+    """Where the blank arguments of a list are: none / sole / first / middle / last / several."""
+    blanks = [i for i, a in enumerate(args) if a == '']
+    if not blanks:
+        return 'none'
+    if len(args) == 1:
+        return 'sole'
+    if len(blanks) > 1:
+        return 'several'
+    return 'first' if blanks[0] == 0 else 'last' if blanks[0] == len(args) - 1 else 'middle'
+
+
+_KNOWN_BLANK_CACHE: list[tuple[str, tuple[str, ...]]] = []
+
+
+def known_blank_lists() -> list[tuple[str, tuple[str, ...]]]:
+    """Every (known helper, argument list over KNOWN_BLANK_ATOMS with 1-5 entries and at least one blank) that the helper's own
+    parse() accepts and whose export() keeps a blank, the sole blank `['']` excluded (the format reads `helper()` as no argument)."""
+    import itertools
+    import warnings
+    from srctools.fgd import HELPER_IMPL, HelperTypes
+    if not _KNOWN_BLANK_CACHE:
+        for name in KNOWN_BLANK_NAMES:
+            try:
+                impl = HELPER_IMPL[HelperTypes(name)]
+            except (ValueError, KeyError):
+                continue                    # a helper type this source does not have: nothing to generate for it
+            for n in range(1, 6):
+                for args in itertools.product(KNOWN_BLANK_ATOMS, repeat=n):
+                    if '' not in args:
+                        continue
+                    try:
+                        with warnings.catch_warnings():
+                            warnings.simplefilter('ignore')
+                            ex = impl.parse(list(args)).export()
+                    except Exception:   # noqa: BLE001
+                        continue
+                    if '' in ex and ex != ['']:
+                        _KNOWN_BLANK_CACHE.append((name, args))
+    return _KNOWN_BLANK_CACHE
+
+
+def helper_args_fgd(items: list[tuple[str, list[str]]]) -> str:
+    """A hand-written FGD: one entity whose header carries the helpers `name(arg, arg, ...)` exactly as EntityDef.export joins them."""
+    out = ['@PointClass']
+    out += [f'\t{name}({", ".join(args)})' for name, args in items]
+    out += ['= c16_helpers : "helpers"', '\t[', '\t]', '']
+    return '\n'.join(out)
+
+
+def helper_obs(h: Any) -> tuple[str, tuple[str, ...]]:
+    from srctools.fgd import UnknownHelper
+    return (h.name if isinstance(h, UnknownHelper) else h.TYPE.value, tuple(h.export()))
+
+
+def check_helper_args(items: list[tuple[str, list[str]]]) -> list[tuple[str, str]]:
+    """[(key, what)]: the helpers of the hand-written entity must be read with their arguments at the positions written (a blank
+    argument stays an argument; only `name()` is no argument), and export -> parse -> export must reproduce helpers and text."""
+    import warnings
+    from srctools.fgd import HELPER_IMPL, HelperTypes
+    known = {h.value for h in HelperTypes}
+    text = helper_args_fgd(items)
+    want: list[tuple[str, tuple[str, ...]]] = []
+    for name, args in items:
+        a = [] if list(args) in ([], ['']) else list(args)
+        if name in known:
+            with warnings.catch_warnings():
+                warnings.simplefilter('ignore')
+                want.append(helper_obs(HELPER_IMPL[HelperTypes(name)].parse(a)))
+        else:
+            want.append((name, tuple(a)))
+    try:
+        with warnings.catch_warnings():
+            warnings.simplefilter('ignore')
+            f1 = parse_text(text)
+    except Exception as e:   # noqa: BLE001
+        return [('helper-args-parse-error', f'hand-written entity header does not parse: {type(e).__name__}: {str(e)[:200]}')]
+    ent = f1.entities['c16_helpers']
+    got = [helper_obs(h) for h in ent.helpers]
+    if got != want:
+        k = next((i for i, (x, y) in enumerate(zip(got, want)) if x != y), min(len(got), len(want)))
+        cls = 'known' if k < len(items) and items[k][0] in known else 'unknown'
+        dropped = k < len(got) and k < len(want) and len(got[k][1]) < len(want[k][1]) and cls == 'unknown'
+        kind = 'blank-argument-dropped' if dropped or (k < len(items) and '' in items[k][1]) else 'arguments-changed'
+        return [(f'helper-args-{kind}:{cls}', f'`{helper_args_fgd(items[k:k + 1]).splitlines()[1].strip()}` is read as {got[k] if k < len(got) else None}, '
+                 f'expected {want[k] if k < len(want) else None} (helper arguments are positional)')]
+    t1 = f1.export()
+    try:
+        with warnings.catch_warnings():
+            warnings.simplefilter('ignore')
+            f2 = parse_text(t1)
+    except Exception as e:   # noqa: BLE001
+        return [('helper-args-export-unparseable', f'export of the parsed entity does not parse: {type(e).__name__}: {str(e)[:200]}')]
+    got2 = [helper_obs(h) for h in f2.entities['c16_helpers'].helpers]
+    if got2 != got or f2.entities['c16_helpers'].helpers != ent.helpers:
+        return [('helper-args-definition-changed', f'export -> parse changed the helpers: {got} -> {got2}')]
+    t2 = f2.export()
+    if t1 != t2:
+        l1, l2 = t1.splitlines(), t2.splitlines()
+        j = next((j for j, (x, y) in enumerate(zip(l1, l2)) if x != y), min(len(l1), len(l2)))
+        return [('helper-args-text-not-fixed-point', f'second export differs: {l1[j:j + 1]} vs {l2[j:j + 1]}')]
+    return []
+
+
+def search_helper_args(ck: Ck) -> None:
+    """Helper argument lists with blank arguments at every position.  Unknown helpers: EVERY list of 0-4 arguments over
+    HELPER_ARG_ATOMS (121 lists, exhaustive in both tiers); known helpers: lists their own parse() accepts and whose export() keeps a
+    blank (frustum, line, cylinder, wirebox, obb, sphere, lightcone, lightconenew, appliesto, orderby; a sample, all when thorough).
+    Text -> parse (arguments at the positions written) -> export -> parse -> export."""
+    import itertools
+    rng = ck.rng
+    cases: list[tuple[str, list[str]]] = []
+    for n in range(0, 5):
+        for args in itertools.product(HELPER_ARG_ATOMS, repeat=n):
+            cases.append((rng.choice(['worldtext_ex', 'custom', 'zz_top']), list(args)))
+    kb = known_blank_lists()
+    ck.extra['known_helpers_with_blank_arguments'] = sorted({n for n, _ in kb})
+    pick = kb if ck.thorough or len(kb) <= 150 else rng.sample(kb, ck.budget(150, len(kb)))
+    cases += [(n, list(a)) for n, a in pick]
+    rng.shuffle(cases)
+    i = 0
+    while i < len(cases):
+        k = rng.choice([1, 2, 3, 5])
+        items = cases[i:i + k]
+        i += k
+        ck.count('search_helper_args')
+        for name, args in items:
+            ck.hist('helper_args_blank', ('known:' if name in KNOWN_BLANK_NAMES else 'unknown:') + blank_positions(args))
+        if any('' in a for _, a in items):
+            ck.seen(('helperargs', tuple((n, tuple(a)) for n, a in items)))
+        for key, what in check_helper_args(items):
+            small = list(items)
+            for it in list(small):
+                cand = [x for x in small if x is not it]
+                if cand and any(k2 == key for k2, _ in check_helper_args(cand)):
+                    small = cand
+            if not any(k2 == key for k2, _ in check_helper_args(small)):
+                small = list(items)
+            ck.violation(key, what, {'kind': 'helper_args', 'items': [[n, a] for n, a in small], 'text': helper_args_fgd(small)})
+
+
 def search_groups(data: bytes, tb: dict) -> list[list[tuple[str, Callable[..., Any], tuple]]]:
     """The search stages, in two groups of about the same cost (one worker process each)."""
     return [
         [('search_longstring', search_longstring, ()),
          ('search_bundled', search_bundled, ()),
          ('search_type_text', search_type_text, ()),
+         ('search_helper_args', search_helper_args, ()),
          ('search_multi_db', search_multi_db, (data, tb)),
          ('search_isolation', search_isolation, (tb['names'],)),
          ('search_lazy_synthetic', search_lazy_synthetic, ())],
@@ -3540,7 +3924,12 @@ def run(ck: Ck) -> None:
                'upper-case letter; custom value types on 12-15 % of the generated keyvalues / inputs / outputs; kind keywords of every '
                'EntityTypes member in random case; block builder: 1-14 entities with sizes on the scale of MAX_BLOCK_SIZE, random '
                'overlapping pairs over a subset of them, non-trivial = more than one block and at least one pair; answer isolation: histories '
-               'of 14 (class, change) pairs over the bundled database through engine_def or one engine_dbase(), distinct by content')
+               'of 20 (class, change) pairs over the bundled database through engine_def or one engine_dbase() (10 kinds of change incl. in-place '
+               'changes of the resources list, value lists and kv_order), and deepcopy + every applicable change on every entity of generated '
+               'FGDs, distinct by content; helper argument lists: EVERY list of 0-4 arguments over {blank, x, b c} for unknown helpers and lists '
+               'with blanks that the known helpers accept (frustum, line, cylinder, wirebox, obb, sphere, lightcone, lightconenew, appliesto, '
+               'orderby), as hand-written text, non-trivial = has a blank argument; the helper pools of the generated FGDs and of the header '
+               'correspondence carry blank arguments at the first, middle, last and several positions')
     ck.trusted.append('hand-written models Fmt/LongString.v, Fmt/FgdBin.v, Fmt/FgdBinEnt.v, Fmt/FgdLine.v, Fmt/FgdBody.v, Fmt/FgdHead.v, SM/LazyDb.v, SM/LazyDbMulti.v (tied by differential '
                       'correspondence on every run; decisive branches and layouts read from the source by the translator)')
     ck.trusted.append('hand-written models Fmt/FgdKindKw.v (top-level dispatch, str.title/replace on ASCII) and SM/FgdBlocks.v (block builder), tied by '
@@ -3558,11 +3947,16 @@ def run(ck: Ck) -> None:
         'binary record theorem: spawnflag masks are powers of two below 2^128, SPAWNFLAGS keyvalues carry no default and other keyvalues no '
         'flag list (what the parser produces); the format does not carry descriptions, helpers, keyvalue tags, kv_order, reportable',
         'custom_syntax=False cannot represent ", \\ and CR in texts, nor tags/resources/extension helpers/aliasof (documented loss)',
-        'entity header theorem: base names and helper arguments are non-empty, stripped, without commas; bases are distinct; no helper is called '
+        'entity header theorem: base names are non-empty, base names and helper arguments are stripped and without commas (helper arguments may '
+        'be blank; the sole blank argument is excluded: helper() is no argument); bases are distinct; no helper is called '
         'base/aliasof/autovis; HELPER_IMPL[type].parse(export()) gives the helper back (checked on the generated helpers as a data obligation)',
         'translator normalisation: attribute loads are plain field reads, callees do not re-assign fields of their arguments, the str methods '
         'casefold/lower/upper/strip/... have no effects (single-assignment locals bound to such expressions are inlined before matching)',
-        'several databases: every database is an independent LazyDb; deepcopy of the answers and FGD.apply_bases() after the merge are outside the model',
+        'several databases: every database is an independent LazyDb; FGD.apply_bases() after the merge is outside the model',
+        'copy isolation: the heap model of SM/FgdCopyShare.v (mutable objects with an address over immutable leaves; an in-place change replaces '
+        'the content of one object); shapes from the annotations of EntityDef / KVDef / IODef (keys of dicts, tuples, frozensets, enums and frozen '
+        'attrs classes are immutable; Helper and EntityDef values need deepcopy); copy.deepcopy and list()/dict()/.copy() of the builtins behave '
+        'as documented',
         'custom value type names are stripped, do not start with *, and are not a spelling of a known type (nor `ehandle` on I/O lines): '
         'what export -> parse can keep; `(* Foo)` and `(**Foo)` are outside (the stored name would start with a blank / a star)',
         'block builder: the iteration order of the set of unplaced entities is a parameter (any order); the final sort by length and '
@@ -3656,6 +4050,9 @@ def run(ck: Ck) -> None:
         ck.explain('instance:text_type_table')
         ck.explain('data:io_type_names')
         ck.explain('data:value_type_names')
+    if any(k.startswith('helper-args-') or 'helpers' in k or 'blank-helper-argument' in k for k in keys):
+        ck.explain('instance:text_helper_args_')
+        ck.explain('correspondence:text_header_')
     if any(k.startswith('generated-fgd') or k.startswith('bundled-db') for k in keys):
         ck.explain('instance:text_kv_')
         ck.explain('instance:text_bool_')
@@ -3669,7 +4066,7 @@ def run(ck: Ck) -> None:
                ('_write_longstring', 'longstring:'), ('_fgd_escape', 'longstring:'), ('ESCAPE', 'longstring:'),
                ('KVDef.export', 'generated-fgd'), ('IODef.export', 'generated-fgd'), ('EntityDef.export', 'generated-fgd'),
                ('KVDef._parse', 'type-text-'), ('IODef._parse', 'type-text-'), ('VALUE_TYPE_LOOKUP', 'type-text-'), ('ValueTypes', 'type-text-'), ('VALUE_TO_IO_DECAY', 'generated-fgd'), ('VALUE_TO_IO_DECAY', 'type-text-'),
-               ('KVDef._parse', 'generated-fgd'), ('IODef._parse', 'generated-fgd'), ('FGD.parse_file', 'generated-fgd'),
+               ('KVDef._parse', 'generated-fgd'), ('IODef._parse', 'generated-fgd'), ('FGD.parse_file', 'generated-fgd'), ('EntityDef.parse', 'helper-args-'), ('EntityDef.parse', 'generated-fgd'), ('EntityDef.export', 'helper-args-'), ('__deepcopy__', 'lazy-answer-not-isolated'), ('.copy', 'lazy-answer-not-isolated'),
                ('FGD.parse_file', 'bundled-db'), ('EntityTypes', 'generated-fgd'))
     for tie in ck.tie_broken:
         if tie.startswith('translator '):
@@ -3678,6 +4075,8 @@ def run(ck: Ck) -> None:
     if any(k.startswith('lazy-') for k in keys):
         ck.explain('correspondence:lazy_db')
         ck.explain('instance:lazy_')
+    if any(k.startswith('lazy-answer-not-isolated') for k in keys):
+        ck.explain('instance:state_')
     if any(k.startswith('lazy-multi-db') for k in keys):
         ck.explain('correspondence:multi_db')
         ck.explain('instance:multi_db_')
@@ -3754,6 +4153,26 @@ def replay(data: dict) -> int:
         if not w2:
             print('every later answer and the whole database equal the first answers')
         return 1 if w2 else 0
+    if kind == 'multi_isolation':
+        found_m = check_multi_isolation({'dbs': r['dbs'], 'ops': []})
+        for how, what in found_m:
+            print('VIOLATION', how, ':', what)
+        if not found_m:
+            print('changing the first FGD.engine_dbase() answer in place does not change the second')
+        return 1 if found_m else 0
+    if kind == 'copy_isolation':
+        found_c = check_copy_isolation(r['key'])
+        for cn, how, what in found_c:
+            print('VIOLATION', cn, how, ':', what)
+        if not found_c:
+            print('no in-place change of a deepcopy() reaches the original')
+        return 1 if found_c else 0
+    if kind == 'helper_args':
+        print(r['text'])
+        found_h = check_helper_args([(n, list(a)) for n, a in r['items']])
+        for k, t in found_h:
+            print('VIOLATION', k, ':', t)
+        return 1 if found_h else 0
     if kind == 'type_text':
         print(r['text'])
         found_t = check_type_text([tuple(x) for x in r['lines']])
